@@ -34,6 +34,8 @@ def cases_of(shard, tier):
     for mask, kinds, style, rev in _sweep.graph_space(tier, n):
         if not (lo <= mask < hi):
             continue
+        if entry == "mp" and "m" in kinds:
+            continue  # dict arguments + legacy fuse: judged under C09 (known finding fuse:*:dict-arg)
         for req in _sweep.request_forms(n):
             configs = [(1, 1)] if entry == "sync" else _sweep.CONFIGS
             for nw, cs in configs:
